@@ -6,6 +6,7 @@ package psatoken
 // decoded claims / Evidence hold no reference to the caller's input buffer.
 
 import (
+	"github.com/veraison/eat"
 	cose "github.com/veraison/go-cose"
 )
 
@@ -27,19 +28,69 @@ type c18snap struct {
 	cptr  []*SwComponent
 }
 
-func c18bytes(s *c18snap, p *[]byte) {
-	if p != nil {
-		s.bytes = append(s.bytes, ndCopyBytes(*p))
-	} else {
-		s.bytes = append(s.bytes, nil)
+// (fields are looked at through interface{} so that the harness compiles whatever Go type a
+// field has in the tree under check)
+func c18bytes(s *c18snap, f interface{}) {
+	switch p := f.(type) {
+	case *[]byte:
+		if p != nil {
+			s.bytes = append(s.bytes, ndCopyBytes(*p))
+			return
+		}
+	case []byte:
+		if p != nil {
+			s.bytes = append(s.bytes, ndCopyBytes(p))
+			return
+		}
+	case *eat.UEID:
+		if p != nil {
+			s.bytes = append(s.bytes, ndCopyBytes([]byte(*p)))
+			return
+		}
 	}
+	s.bytes = append(s.bytes, nil)
 }
 
-func c18str(s *c18snap, p *string) {
-	if p != nil {
-		s.strs = append(s.strs, *p)
-	} else {
-		s.strs = append(s.strs, "\x00absent")
+func c18str(s *c18snap, f interface{}) {
+	switch p := f.(type) {
+	case *string:
+		if p != nil {
+			s.strs = append(s.strs, *p)
+			return
+		}
+	case string:
+		s.strs = append(s.strs, p)
+		return
+	}
+	s.strs = append(s.strs, "\x00absent")
+}
+
+func c18int(s *c18snap, f interface{}) {
+	switch p := f.(type) {
+	case *int32:
+		if p != nil {
+			s.ints = append(s.ints, int64(*p))
+		}
+	case *int64:
+		if p != nil {
+			s.ints = append(s.ints, *p)
+		}
+	case *uint16:
+		if p != nil {
+			s.ints = append(s.ints, int64(*p))
+		}
+	case *uint32:
+		if p != nil {
+			s.ints = append(s.ints, int64(*p))
+		}
+	case *uint:
+		if p != nil {
+			s.ints = append(s.ints, int64(*p))
+		}
+	case *uint64:
+		if p != nil {
+			s.ints = append(s.ints, int64(*p))
+		}
 	}
 }
 
@@ -74,15 +125,9 @@ func c18take(c IClaims) *c18snap {
 		s.isP1 = true
 		s.p1 = *x
 		c18str(s, x.Profile)
-		if x.ClientID != nil {
-			s.ints = append(s.ints, int64(*x.ClientID))
-		}
-		if x.SecurityLifeCycle != nil {
-			s.ints = append(s.ints, int64(*x.SecurityLifeCycle))
-		}
-		if x.NoSwMeasurements != nil {
-			s.ints = append(s.ints, int64(*x.NoSwMeasurements))
-		}
+		c18int(s, x.ClientID)
+		c18int(s, x.SecurityLifeCycle)
+		c18int(s, x.NoSwMeasurements)
 		c18bytes(s, x.ImplID)
 		c18bytes(s, x.BootSeed)
 		c18str(s, x.CertificationReference)
@@ -92,19 +137,12 @@ func c18take(c IClaims) *c18snap {
 		c18sw(s, x.SwComponents)
 	case *P2Claims:
 		s.p2 = *x
-		if x.ClientID != nil {
-			s.ints = append(s.ints, int64(*x.ClientID))
-		}
-		if x.SecurityLifeCycle != nil {
-			s.ints = append(s.ints, int64(*x.SecurityLifeCycle))
-		}
+		c18int(s, x.ClientID)
+		c18int(s, x.SecurityLifeCycle)
 		c18bytes(s, x.ImplID)
 		c18bytes(s, x.BootSeed)
 		c18str(s, x.CertificationReference)
-		if x.InstID != nil {
-			b := []byte(*x.InstID)
-			c18bytes(s, &b)
-		}
+		c18bytes(s, x.InstID)
 		if x.Nonce != nil {
 			s.ints = append(s.ints, int64(x.Nonce.Len()))
 			for i := 0; i < x.Nonce.Len(); i++ {
